@@ -49,6 +49,50 @@ func cssObserve(enc *json.Encoder, c []cssAspect, q cssAspect) {
 		}
 	}()
 	enc.Encode(ev)
+	// the same candidates as a scattered, permuted subset of a larger font set (what FontMap passes): the
+	// result must be the same candidates
+	cssObserveEmbedded(enc, c, q, as)
+}
+
+var cssDecoys = []font.Aspect{{Stretch: 0.5, Style: 1, Weight: 100}, {Stretch: 2, Style: 2, Weight: 900}, {Stretch: 1, Style: 1, Weight: 400},
+	{Stretch: 0.75, Style: 2, Weight: 700}, {Stretch: 1.25, Style: 1, Weight: 300}}
+
+func cssObserveEmbedded(enc *json.Encoder, c []cssAspect, q cssAspect, as []font.Aspect) {
+	n := len(c)
+	if n == 0 {
+		return
+	}
+	// deterministic scatter from the case itself: decoys first, then candidates in reverse order with a decoy between
+	var all []font.Aspect
+	all = append(all, cssDecoys[(q.W/50+n)%len(cssDecoys)], cssDecoys[(q.St/125+2*n)%len(cssDecoys)])
+	pos := make([]int, n)
+	for k := n - 1; k >= 0; k-- {
+		pos[k] = len(all)
+		all = append(all, as[k], cssDecoys[(k+q.Sy)%len(cssDecoys)])
+	}
+	ev := cssEvent{C: c, Q: q, R: []int{}, P: "ok"}
+	func() {
+		defer func() {
+			if r := recover(); r != nil {
+				ev.P = "panic"
+			}
+		}()
+		r := fontscan.VerifRetainBestIn(all, pos, q.real())
+		for _, j := range r {
+			k := -1
+			for i, p := range pos {
+				if p == j {
+					k = i
+				}
+			}
+			if k < 0 {
+				ev.P = "result outside the candidates"
+				return
+			}
+			ev.R = append(ev.R, k)
+		}
+	}()
+	enc.Encode(ev)
 }
 
 func cssMain(args []string) error {
